@@ -101,6 +101,20 @@ def o_pl(a):
             quad = numpy.trapezoid(n * E ** (-idx) * E, numpy.log(E))
             if abs(quad - a['flux']) > 1e-6 * a['flux']:
                 bad.append('index %r: quadrature of norm·E^-index gives %r, not %r' % (idx, float(quad), a['flux']))
+    # ranges that start at zero energy: legal wherever the integral converges (index < 1 for the photon flux, index < 2 for the energy flux)
+    for idx in a['indices']:
+        for (_, emax) in a['ranges']:
+            try:
+                if idx < 0.95:
+                    back = sp.pl_integral(sp.pl_norm(a['flux'], 0., emax, idx), idx, 0., emax)
+                    if not (abs(back - a['flux']) <= 1e-9 * a['flux']):
+                        bad.append('index %r range (0.0, %r): photon flux %r integrates back to %r' % (idx, emax, a['flux'], float(back)))
+                if idx < 1.95:
+                    backe = sp.pl_integral_flux(sp.int_eflux2pl_norm(a['eflux'], 0., emax, idx), idx, 0., emax)
+                    if not (abs(backe - a['eflux']) <= 1e-9 * a['eflux']):
+                        bad.append('index %r range (0.0, %r): energy flux %r integrates back to %r' % (idx, emax, a['eflux'], float(backe)))
+            except BaseException as e:
+                bad.append('index %r range (0.0, %r): %s: %s' % (idx, emax, type(e).__name__, e))
     return not bad, dict(violated=bad[:5])
 
 
